@@ -828,7 +828,11 @@ class SubprocSpec:
             return
         for i in range(ln):
             c = self.cmd[i]
-            if c in XSH.aliases and isinstance(mod := XSH.aliases[c], DecoratorAlias):
+            if (
+                isinstance(c, str)
+                and c in XSH.aliases
+                and isinstance(mod := XSH.aliases[c], DecoratorAlias)
+            ):
                 self.add_decorator(mod)
             else:
                 break
